@@ -66,6 +66,8 @@ var trTargets = []trTarget{
 	{Pkg: evm + "x/evm/keeper", Recv: "Keeper", Name: "GetCumulativeLogCountTransient", Fuel: "txCount + 1"},
 	{Pkg: evm + "x/cpc/keeper", Recv: "erc20CustomPrecompiledContractRwTransferFrom", Name: "spendAllowance"},
 	{Pkg: evm + "types", Name: "BlockGasLimit"},
+	{Pkg: geth + "core/vm", Recv: "CustomPrecompiledContract", Name: "RunCustom"},
+	{Pkg: geth + "core/vm", Recv: "CustomPrecompiledContractMethod", Name: "Validate"},
 	{Pkg: geth + "consensus/misc", Name: "CalcBaseFee"},
 	{Pkg: geth + "core", Name: "IntrinsicGas"},
 	{Pkg: evm + "x/feemarket/keeper", Recv: "Keeper", Name: "CalculateBaseFee"},
